@@ -106,9 +106,6 @@ impl Op {
     fn parse(s: &str) -> Option<Op> {
         ALL_OPS.iter().copied().find(|o| o.name() == s)
     }
-    fn is_write(self) -> bool {
-        !matches!(self, Begin | Commit | Rollback | Savept | RollTo)
-    }
 }
 
 /// transaction well-formedness: 0 = autocommit, 1 = in transaction, 2 = in transaction with savepoint s.
@@ -1058,6 +1055,7 @@ impl C10 {
         let size_tier = if ctx.opt("sizes") == Some("quick") { vcore::Tier::Quick } else { ctx.tier };
         let mut unit = 0u64; // ownership counter over (pass, variant, preload, first operation)
         let mut since_check = 0u32;
+        // bounds of every planned pass are recorded up-front (a capped run names where it stopped in `notes`)
         for pass in PASSES {
             if only_pass.as_deref().map(|x| x != pass.name).unwrap_or(false) {
                 continue;
@@ -1076,6 +1074,11 @@ impl C10 {
             rep.bound(&format!("pass:{}", pass.name), json!({"ops": pass.ops.iter().map(|o| o.name()).collect::<Vec<_>>(), "why": pass.why,
                 "max_history_length": {"preload_none": dep(0), "preload_p12": dep(1), "preload_p650": dep(2)},
                 "variants": VARIANTS.iter().filter(|v| !pass.skip_variants.contains(&v.name)).map(|v| v.name).collect::<Vec<_>>(), "probes_not_evaluated": pass.skip_probes}));
+        }
+        for pass in PASSES {
+            if only_pass.as_deref().map(|x| x != pass.name).unwrap_or(false) {
+                continue;
+            }
             for v in VARIANTS {
                 if only_variant.as_deref().map(|x| x != v.name).unwrap_or(false) || pass.skip_variants.contains(&v.name) {
                     continue;
